@@ -97,6 +97,7 @@ type ContractSet struct {
 	Hooks      []*Hook
 	UFs        map[string]ufInfo
 	Structs    []*Structural
+	Monitors   map[string][]string // "pkg.T.mutexField" -> fields of T the mutex protects
 }
 
 // Structural is an obligation discharged on the SSA of the package (store
@@ -376,6 +377,28 @@ func (cs *ContractSet) parseLines(lines []string, pkgPath, pkgName, file string,
 					cs.ObjInvs[tn] = oi
 				}
 				oi.Clauses = append(oi.Clauses, c)
+			}
+			cur, curLoop, curHook = nil, nil, nil
+		case "monitor":
+			// monitor T.mu: f1, f2, ... - the mutex field mu of T protects these fields of T:
+			// at every acquisition of x.mu they may have been changed by other goroutines
+			// (they are havocked and T's object invariant is assumed again)
+			i := strings.Index(rest, ":")
+			if i < 0 {
+				errf(l, "monitor: expected `monitor T.mu: f1, f2`")
+				continue
+			}
+			tn := strings.TrimSpace(rest[:i])
+			if strings.Count(tn, ".") == 1 {
+				tn = pkgName + "." + tn
+			}
+			if cs.Monitors == nil {
+				cs.Monitors = map[string][]string{}
+			}
+			for _, f := range strings.Split(rest[i+1:], ",") {
+				if f = strings.TrimSpace(f); f != "" {
+					cs.Monitors[tn] = append(cs.Monitors[tn], f)
+				}
 			}
 			cur, curLoop, curHook = nil, nil, nil
 		case "globalinv":
